@@ -30,7 +30,9 @@ def _bn_fields(bn):
     if bn is None:
         return '-:-:-'
     assert bn.eps == 0. and bool((bn.running_var == 1).all())
-    return '%s:%s:%s' % (_lst(_ints(bn.running_mean)), _lst(_ints(bn.weight)), _lst(_ints(bn.bias)))
+    n = bn.num_features
+    return '%s:%s:%s' % (_lst(_ints(bn.running_mean)), _lst(_ints(bn.weight) if bn.affine else [1] * n),
+                         _lst(_ints(bn.bias) if bn.affine else [0] * n))
 
 
 def sem_case(spec):
